@@ -32,9 +32,10 @@ UNK_NONCRIT = ts.tlv(0x7E, b'\x99')
 UNK_NONCRIT_BIG = ts.tlv(0xFFFE, b'')
 UNK_CRIT = ts.tlv(0x7D, b'\x99')
 C1, C2, C3 = ts.tlv(8, b'a'), ts.tlv(8, b''), ts.tlv(32, b'k')
+CL = ts.tlv(8, b'L' * 253)          # one component whose value needs a 3-byte length
 
 KINDS = ['uint', 'uint1', 'uint2', 'uint4', 'uint8', 'bool', 'bytes', 'text', 'name', 'model',
-         'rep-uint', 'rep-bytes', 'rep-name', 'rep-model', 'map-uint-bytes', 'map-text-model']
+         'rep-uint', 'rep-bytes', 'rep-name', 'rep-model', 'map-uint-bytes', 'map-text-model', 'map-uint-uint', 'map-uint-model']
 
 
 def field_of(kind, n, types):
@@ -63,6 +64,12 @@ def field_of(kind, n, types):
                                                              {'n': 'z', 'k': 'text', 't': next(types)}]}}
     if kind == 'map-uint-bytes':
         return {'n': n, 'k': 'map', 't': t, 'key': {'n': None, 'k': 'uint', 't': t}, 'val': {'n': None, 'k': 'bytes', 't': next(types)}}
+    if kind == 'map-uint-uint':
+        return {'n': n, 'k': 'map', 't': t, 'key': {'n': None, 'k': 'uint', 't': t}, 'val': {'n': None, 'k': 'uint', 't': next(types)}}
+    if kind == 'map-uint-model':
+        return {'n': n, 'k': 'map', 't': t, 'key': {'n': None, 'k': 'uint', 't': t},
+                'val': {'n': None, 'k': 'model', 't': next(types), 'fields': [{'n': 'x', 'k': 'uint', 't': next(types)},
+                                                                             {'n': 'y', 'k': 'bytes', 't': next(types)}]}}
     if kind == 'map-text-model':
         return {'n': n, 'k': 'map', 't': t, 'key': {'n': None, 'k': 'text', 't': t},
                 'val': {'n': None, 'k': 'model', 't': next(types), 'fields': [{'n': 'x', 'k': 'uint', 't': next(types)}]}}
@@ -218,7 +225,7 @@ def menu(f, level, tier):
     elif k == 'text':
         full = [None, '', 'a', 'é', '日本', 'é' * 126, 'x' * 253, 'é' * 127]
     elif k == 'name':
-        full = [None, [], [C1], [C1, C2, C3]]
+        full = [None, [], [C1], [C1, C2, C3], [CL], [C1] * 126, [C1, CL, C3]]
     elif k == 'model':
         subs = [menu(g, 1, tier) for g in f['fields']]
         full = [None, {}] + [dict(zip([g['n'] for g in f['fields']], combo)) for combo in itertools.product(*subs)][:12]
@@ -228,14 +235,14 @@ def menu(f, level, tier):
     elif k == 'map':
         km = [x for x in menu(f['key'], 0, tier) if x is not None]
         vm = [x for x in menu(f['val'], 1, tier) if x is not None]
-        pairs = [(km[i % len(km)], vm[i % len(vm)]) for i in range(3)]
+        pairs = [(km[i % len(km)], vm[(i + 1) % len(vm)]) for i in range(3)] + [(km[(i + 3) % len(km)], vm[(i * 2) % len(vm)]) for i in range(2)]
         # keys must be distinct
         seen, uniq = set(), []
         for kk, vv in pairs:
             if kk not in seen:
                 seen.add(kk)
                 uniq.append((kk, vv))
-        full = [[], uniq[:1], uniq[:2], uniq[:3]]
+        full = [[], uniq[:1], uniq[:2], uniq[:3], uniq[3:5], uniq[1:2]]
     else:
         raise ValueError(k)
     if level == 0:
@@ -427,7 +434,7 @@ def val_str(v):
 
 # -- generated programs -------------------------------------------------------------------------------------
 def program_shapes(tier):
-    nmax = 2 if tier == 'quick' else 3
+    nmax = 3
     idx = 0
     for n in range(1, nmax + 1):
         for kinds in itertools.product(KINDS, repeat=n):
@@ -436,10 +443,10 @@ def program_shapes(tier):
             if sh is not None:
                 annotate(sh)
                 yield sh
-    if tier == 'quick':
-        # three fields over a reduced kind set
+    if tier == 'thorough':
+        # four fields over a reduced kind set
         red = ['uint', 'bool', 'text', 'name', 'rep-bytes', 'map-uint-bytes', 'model']
-        for kinds in itertools.product(red, repeat=3):
+        for kinds in itertools.product(red, repeat=4):
             idx += 1
             sh = shape_from_kinds(kinds, idx)
             if sh is not None:
@@ -656,7 +663,7 @@ def check_shipped(name, cls, shape, values):
 def plan(tier, seed):
     shapes = list(program_shapes(tier))
     units = []
-    chunk = 12 if tier == 'quick' else 20
+    chunk = 20
     for lo in range(0, len(shapes), chunk):
         units.append({'kind': 'programs', 'lo': lo, 'hi': min(len(shapes), lo + chunk), 'tier': tier})
     units.append({'kind': 'inherit', 'tier': tier})
@@ -668,7 +675,7 @@ def plan(tier, seed):
         'rule': 'programs: one case = (model shape, value assignment) plus, for every case, one sub-case per gap/variant of inserted, '
                 'repeated or reordered element; shipped: (model, field-presence subset, value rotation). Distinct by construction. '
                 'Non-trivial = a case with at least one container field (model / repeated / map) or a multi-byte type or length number.',
-        'bounds': {'program_shapes': len(shapes), 'fields_per_model': '1..2 (+3 over 7 kinds)' if tier == 'quick' else '1..3',
+        'bounds': {'program_shapes': len(shapes), 'fields_per_model': '1..3' if tier == 'quick' else '1..3 (+4 over 7 kinds)',
                    'kinds': KINDS, 'type_numbers': TYPE_MENU, 'shipped_models': [n for n, _, _ in sm], 'nesting_depth': 2},
         'assumptions': ['NameField with a custom type_number is outside the enumeration (documented as always TYPE_NAME)',
                         'out-of-order / repeated non-critical (even-typed) declared elements carry no claim'],
